@@ -27,6 +27,12 @@ func monitor(evs []Ev) []Problem {
 	popped := map[int]int{}
 	executed := map[int]int{}
 	running := 0
+	lastPeeked := -1
+	var tmr struct {
+		dur, created int64
+		forID        int
+		ok           bool
+	}
 	closeCalled, closeRet, closeRet2 := false, false, false
 	afterClose := func() string {
 		if closeRet2 && !closeRet {
@@ -42,7 +48,12 @@ func monitor(evs []Ev) []Problem {
 			lastEnqOut[e.ID] = e.Out
 		case "deq":
 			delete(live, e.Key)
+		case "newtimer":
+			tmr.dur, tmr.created, tmr.forID, tmr.ok = e.At, e.Now, lastPeeked, lastPeeked >= 0
 		case "peeked":
+			if !e.None {
+				lastPeeked = e.ID
+			}
 			for _, id := range live {
 				peekedAfter[id] = true
 			}
@@ -116,6 +127,17 @@ func monitor(evs []Ev) []Problem {
 				continue
 			}
 			for _, lid := range live {
+				if items[lid].at <= e.Now && e.ID > 0 && e.P == "parked" && tmr.ok {
+					// The loop is parked on a timer. If the clock advanced between the loop's Now() and its
+					// NewTimer() (lag > 0, observed directly: duration and creation time of the timer), the
+					// timer is late by exactly that much; the item is then served at the timer, not before.
+					r := items[tmr.forID]
+					lag := tmr.created - (r.at - tmr.dur)
+					if lag > 0 && tmr.created+tmr.dur > e.Now && r.at <= items[lid].at {
+						add("late-after-clock-advance-between-now-and-newtimer", "event %d: id=%d (at %d) is due at clock %d but the loop sleeps until %d: its timer (%d ns, for id=%d at %d) was created at clock %d, %d ns after it had read the clock", i, lid, items[lid].at, e.Now, tmr.created+tmr.dur, tmr.dur, tmr.forID, r.at, tmr.created, lag)
+						continue
+					}
+				}
 				if items[lid].at <= e.Now {
 					add("due-item-not-served", "event %d: at quiescence id=%d (at %d) is due at clock %d but was not executed", i, lid, items[lid].at, e.Now)
 				}
